@@ -84,9 +84,18 @@ class Proj:
         from ombott.router.filter_factory import FilterFactory
         if h is None:
             return 'None'
-        for k, (handler, _f_out) in FilterFactory._filter_cache.items():
-            if handler is h:
-                return k
+        # the factory keeps one handler object per filter spec in some class-level table; find the spec of this handler in
+        # whatever dict that is (key "name(args)" or (name, args)); '?' if there is none (-> no projection, DRIFT)
+        for _attr, table in list(vars(FilterFactory).items()):
+            if not isinstance(table, dict):
+                continue
+            for k, v in list(table.items()):
+                hv = v[0] if isinstance(v, (list, tuple)) and v else v
+                if hv is h:
+                    if isinstance(k, str):
+                        return k
+                    if isinstance(k, tuple) and len(k) == 2:
+                        return '%s(%s)' % (k[0], k[1])
         return '?'
 
     def node(self, n):
